@@ -25,12 +25,16 @@ def pat(t):
     return ".snd" if m.group(1) == "_" else ".fst"
 
 
-def span(b, what, endname):
+def span(b, what, consumer):
+    """`consumer`: what must FOLLOW the two reads at once (nothing may rebind begin / end in between)"""
     m = re.search(r"if let Some\(\(start, stop\)\) = field\.to_index_pair\(ranges\.len\(\)\) \{ "
                   r"let (&\(\w+, \w+\)) = &ranges\[start\]; "
-                  r"let (&\(\w+, \w+\)) = ranges\.get\((stop(?: - 1)?)\)\.unwrap_or\(&\((text\.len\(\)|0), (text\.len\(\)|0)\)\);", b)
+                  r"let (&\(\w+, \w+\)) = ranges\.get\((stop(?: - 1)?)\)\.unwrap_or\(&\((text\.len\(\)|0), (text\.len\(\)|0)\)\); " + consumer, b)
     if not m:
         raise R.Unsupported(what + ": begin / end not understood")
+    names = re.findall(r"\w+", m.group(1) + m.group(2))
+    if sorted(n for n in names if n != "_") != ["begin", "end"] or "begin" not in m.group(1):
+        raise R.Unsupported(what + ": the two reads do not bind `begin` then `end`")
     dflt = (m.group(4), m.group(5))
     endc = pat(m.group(2))
     return {"beginComp": pat(m.group(1)), "endComp": endc, "endMinusOne": "true" if m.group(3) != "stop" else "false",
@@ -46,13 +50,13 @@ def extract(repo):
                      r"ranges\.push\(\((last|0), (text\.len\(\)|last)\)\); ranges", b)
     if not m:
         raise R.Unsupported("get_ranges_by_delimiter: loop not understood")
-    gs = span(norm(R.fn_body(src, "get_string_by_field")[0]), "get_string_by_field", "end")
+    gs = span(norm(R.fn_body(src, "get_string_by_field")[0]), "get_string_by_field", r"Some\(&text\[begin\.\.end\]\) \} else \{ None \}")
     b = norm(R.fn_body(src, "get_string_by_field")[0])
     if not re.search(r"Some\(&text\[begin\.\.end\]\) \} else \{ None \}", b) or \
             not b.startswith("let ranges = get_ranges_by_delimiter(delimiter, text);"):
         raise R.Unsupported("get_string_by_field: not `ranges; if let .. { ..; Some(&text[begin..end]) } else { None }`")
-    pm = span(norm(R.fn_body(src, "parse_matching_fields")[0]), "parse_matching_fields", "end")
-    pt = span(norm(R.fn_body(src, "parse_transform_fields")[0]), "parse_transform_fields", "end")
+    pm = span(norm(R.fn_body(src, "parse_matching_fields")[0]), "parse_matching_fields", r"ret\.push\(\(begin, end\)\); \}")
+    pt = span(norm(R.fn_body(src, "parse_transform_fields")[0]), "parse_transform_fields", r"ret\.push_str\(&text\[begin\.\.end\]\); \}")
     b1 = norm(R.fn_body(src, "parse_matching_fields")[0])
     b2 = norm(R.fn_body(src, "parse_transform_fields")[0])
     if not re.fullmatch(r"let ranges = get_ranges_by_delimiter\(delimiter, text\); let mut ret = Vec::new\(\); for field in fields \{ "
